@@ -591,6 +591,7 @@ fn collect_paths(v: &ManifestValue, cur: &mut Vec<usize>, out: &mut Vec<Vec<usiz
 // ------------------------------------------------------------------------------------------------
 
 /// seeds that additionally get every substitution of two adjacent bytes (thorough tier)
+const DOUBLE_WALL_CAP_S: f64 = 900.0;
 const DOUBLE_MUTATION_SEEDS: [&str; 6] = ["v1-signed-blobs-plaintext", "v2-nested-subintents", "partial-signed", "ledger-round-update", "ledger-genesis-system", "ledger-flash"];
 
 pub fn run(ctx: Ctx) -> ! {
@@ -731,27 +732,6 @@ pub fn run(ctx: Ctx) -> ! {
             let how = format!("byte:substitute@{off}={b:#04x}{}", if must { "[must-reject]" } else { "" });
             check_payload(seed, orig, &buf, &how, "byte", if must { Demand::MustReject } else { Demand::None }, &settings, l, &stats);
         }
-        buf[off] = seed.raw[off];
-        if double && off + 1 < seed.raw.len() && DOUBLE_MUTATION_SEEDS.contains(&seed.name) {
-            let must = off == 0 || off == 2 || off + 1 == 2;
-            for b1 in 0..=255u8 {
-                if b1 == seed.raw[off] {
-                    continue;
-                }
-                buf[off] = b1;
-                for b2 in 0..=255u8 {
-                    if b2 == seed.raw[off + 1] {
-                        continue;
-                    }
-                    buf[off + 1] = b2;
-                    let how = format!("byte2:substitute@{off}={b1:#04x},{b2:#04x}{}", if must { "[must-reject]" } else { "" });
-                    check_payload(seed, orig, &buf, &how, "byte2", if must { Demand::MustReject } else { Demand::None }, &settings, l, &stats);
-                }
-            }
-            double_payloads.fetch_add(255 * 255, Ordering::Relaxed);
-            buf[off] = seed.raw[off];
-            buf[off + 1] = seed.raw[off + 1];
-        }
         let mut v = seed.raw.clone();
         v.remove(off);
         check_payload(seed, orig, &v, &format!("byte:delete@{off}"), "byte", Demand::None, &settings, l, &stats);
@@ -760,6 +740,39 @@ pub fn run(ctx: Ctx) -> ! {
         check_payload(seed, orig, &v, &format!("byte:duplicate@{off}"), "byte", Demand::None, &settings, l, &stats);
         check_payload(seed, orig, &seed.raw[..off], &format!("byte:truncate@{off}"), "byte", Demand::None, &settings, l, &stats);
     });
+    // thorough: every substitution of two adjacent bytes; wall-capped (the single-point sweeps above always complete)
+    let double_jobs: Vec<(usize, usize)> = if double { byte_jobs.iter().copied().filter(|(si, off)| DOUBLE_MUTATION_SEEDS.contains(&seeds[*si].name) && off + 1 < seeds[*si].raw.len()).collect() } else { vec![] };
+    let double_capped = std::sync::atomic::AtomicBool::new(false);
+    par_range(&ctx, double_jobs.len() as u64, 1, |j, l| {
+        if ctx.elapsed_s() > DOUBLE_WALL_CAP_S {
+            double_capped.store(true, Ordering::Relaxed);
+            return;
+        }
+        let (si, off) = double_jobs[j as usize];
+        let seed = &seeds[si];
+        let orig = &origs[si];
+        let mut buf = seed.raw.clone();
+        let must = off == 0 || off == 2 || off + 1 == 2;
+        for b1 in 0..=255u8 {
+            if b1 == seed.raw[off] {
+                continue;
+            }
+            buf[off] = b1;
+            for b2 in 0..=255u8 {
+                if b2 == seed.raw[off + 1] {
+                    continue;
+                }
+                buf[off + 1] = b2;
+                let how = format!("byte2:substitute@{off}={b1:#04x},{b2:#04x}{}", if must { "[must-reject]" } else { "" });
+                check_payload(seed, orig, &buf, &how, "byte2", if must { Demand::MustReject } else { Demand::None }, &settings, l, &stats);
+            }
+        }
+        double_payloads.fetch_add(255 * 255, Ordering::Relaxed);
+    });
+    let double_capped = double_capped.load(Ordering::Relaxed);
+    if double_capped {
+        ctx.note(format!("wall cap {DOUBLE_WALL_CAP_S}s hit during the adjacent-double-substitution sweep: {} of {} offsets completed; all single-point sweeps, structural perturbations and limit probes are complete", double_payloads.load(Ordering::Relaxed) / (255 * 255), double_jobs.len()));
+    }
     {
         let mut l = Local::new();
         for (si, seed) in seeds.iter().enumerate() {
@@ -876,6 +889,7 @@ pub fn run(ctx: Ctx) -> ! {
     cov.insert("byte_offsets".into(), json!(byte_jobs.len()));
     cov.insert("substitution_values_per_offset".into(), json!("all 255"));
     cov.insert("adjacent_double_substitutions".into(), json!(double_payloads.load(Ordering::Relaxed)));
+    cov.insert("adjacent_double_substitution_offsets".into(), json!({"completed": double_payloads.load(Ordering::Relaxed) / (255 * 255), "planned": double_jobs.len()}));
     cov.insert("adjacent_double_substitution_seeds".into(), json!(if double { DOUBLE_MUTATION_SEEDS.to_vec() } else { vec![] }));
     cov.insert("derived_payloads".into(), json!(stats.payloads.load(Ordering::Relaxed)));
     cov.insert("derived_payloads_that_prepare".into(), json!(stats.accepted_mutants.load(Ordering::Relaxed)));
@@ -884,7 +898,7 @@ pub fn run(ctx: Ctx) -> ! {
         Level::Exploration,
         "a case is one payload derived from a seed (structural perturbation of one value-tree node, or one byte-level mutation, or a limit probe) prepared by the real code; non-trivial = derived payloads different from their seed that the real preparation accepts (they are the ones on which the content<=>hash oracle actually bites)",
         stats.accepted_mutants.load(Ordering::Relaxed),
-        true,
+        !double_capped,
         cov,
         &[
             "blake2b is collision free on the explored payloads",
